@@ -89,9 +89,12 @@ theorem scalePreview_comp {a : Rat} (ha : 0 < a) (b p : Rat) :
   · have : ¬ p / a < 0 := not_lt.mpr (div_nonneg (not_lt.mp hp) (le_of_lt ha))
     simp [hp, this, div_div]
 
-theorem scalePreview_nonneg {r : Rat} (hr : 0 < r) {p : Rat} (hp : 0 ≤ p) : 0 ≤ scalePreview r p := by
-  simp only [scalePreview, not_lt.mpr hp, if_false]
-  exact div_nonneg hp (le_of_lt hr)
+/-- the code's guard (`>= 0`) and the specification's (`< 0` is the marker) are the same function -/
+theorem ratePreview_eq (r p : Rat) : ratePreview r p = scalePreview r p := by
+  unfold ratePreview scalePreview
+  by_cases h : p < 0
+  · simp [h, not_le.mpr h]
+  · simp [h, not_lt.mp h]
 
 theorem scaleChart_one (g : Game) (c : Chart) : scaleChart g 1 c = c := by
   cases c with
@@ -223,7 +226,7 @@ theorem samplesOk_scale (r : Rat) (f : Frame) (h : samplesOk f = true) : samples
     by simpa [scaleFrame] using h5⟩
   rw [col_scaleFrame, all_numeric_scale]; exact h3
 
-theorem chartOk_scale (g : Game) {r : Rat} (hr : 0 < r) (c : Chart) (h : chartOk g c = true) : chartOk g (scaleChart g r c) = true := by
+theorem chartOk_scale (g : Game) (r : Rat) (c : Chart) (h : chartOk g c = true) : chartOk g (scaleChart g r c) = true := by
   simp only [chartOk, Bool.and_eq_true] at h ⊢
   obtain ⟨h1, h2⟩ := h
   constructor
@@ -239,12 +242,11 @@ theorem chartOk_scale (g : Game) {r : Rat} (hr : 0 < r) (c : Chart) (h : chartOk
         cases hp : c.preview with
         | none => simp [hs, hp] at h2
         | some pv =>
-          simp only [hs, hp, Bool.and_eq_true, decide_eq_true_eq] at h2
-          simp only [Option.map_some, Bool.and_eq_true, decide_eq_true_eq]
-          exact ⟨samplesOk_scale r sm h2.1, scalePreview_nonneg hr h2.2⟩
+          simp only [hs, hp] at h2
+          simpa using samplesOk_scale r sm h2
     · simp [hg]
 
-theorem setOk_scale (k : SetKind) (g : Game) {r : Rat} (hr : 0 < r) (s : MapSet) (h : setOk k g s = true) :
+theorem setOk_scale (k : SetKind) (g : Game) (r : Rat) (s : MapSet) (h : setOk k g s = true) :
     setOk k g (scaleSet k g r s) = true := by
   simp only [setOk, Bool.and_eq_true, List.all_eq_true] at h ⊢
   obtain ⟨h1, h2⟩ := h
@@ -252,7 +254,7 @@ theorem setOk_scale (k : SetKind) (g : Game) {r : Rat} (hr : 0 < r) (s : MapSet)
   · intro c hc
     simp only [scaleSet, List.mem_map] at hc
     obtain ⟨c0, hc0, rfl⟩ := hc
-    exact chartOk_scale g hr c0 (h1 c0 hc0)
+    exact chartOk_scale g r c0 (h1 c0 hc0)
   · by_cases hk : k = .sm
     · subst hk
       simp only [if_true, scaleSet, Bool.and_eq_true, Option.isSome_map] at h2 ⊢
